@@ -308,6 +308,12 @@ func lexExpr(s string) ([]string, error) {
 			for j < len(s) && (unicode.IsDigit(rune(s[j])) || s[j] == 'x' || (s[j] >= 'a' && s[j] <= 'f')) {
 				j++
 			}
+			if j+1 < len(s) && s[j] == '.' && unicode.IsDigit(rune(s[j+1])) { // float literal
+				j++
+				for j < len(s) && unicode.IsDigit(rune(s[j])) {
+					j++
+				}
+			}
 			toks = append(toks, s[i:j])
 			i = j
 		case c == '"':
@@ -576,6 +582,9 @@ func (l *lexer) primary() (*Expr, error) {
 		}
 		return &Expr{Op: "old", Args: args}, nil
 	case unicode.IsDigit(rune(t[0])):
+		if strings.Contains(t, ".") {
+			return &Expr{Op: "fnum", Name: t}, nil
+		}
 		return &Expr{Op: "num", Name: t}, nil
 	case t[0] == '"':
 		return &Expr{Op: "str", Name: t[1 : len(t)-1]}, nil
